@@ -98,9 +98,18 @@ TRICKY = ["<b>&amp;</b>", "say \"hi\"", "back\\slash", "tab\there", "line\nbreak
 NONASCII = ["gène", "Ünal", "中文", "\U0001f9ec", "α-helix β", "naïve \U00010348", "퟿",
             "\U0010ffff", "\u0080߿ࠀ￿"]
 
+# numeric-looking text in forms a number-canonicalising codec would change (or reject): any string field could get one
+NUMERIC = ["1e-5", "12.30", "100.0", "+1", "007", "1E5", ".5", "5.", "-0", "1e400", "NaN", "Inf", "-Inf", "+Inf", "0x10", "1_000",
+           "1e+5", "0.10", "1.0e0", "00", "-.5", "1e5", "123456789012345678901234567890", "0.1e1", "9007199254740993",
+           "-0.0", "1e-400", "true", "false", "null", " 1", "1 ", "1,5", "١٢٣", "6323249", "0", "1", "3.0"]
+
 PLAIN = [False]   # when set, every generated string is printable ASCII (the writers' models' domain)
 
 def rstr(r, tricky=0.12, nonascii=0.12):
+    if r.random() < 0.12:
+        t = r.choice(NUMERIC)
+        if not PLAIN[0] or all(32 <= ord(c) <= 126 for c in t):
+            return t
     if PLAIN[0]:
         return randword(r, "abc XYZ,.;=", r.randint(20, 120)) if r.random() < 0.1 else r.choice(WORDS)
     u = r.random()
@@ -240,6 +249,17 @@ def rsequence(r, maxdepth):
         x["Features"] = [rfeature(r, x["Sequence"], maxdepth) for _ in range(r.choice([1, 1, 2, 3, 5]))]
     return x
 
+def all_fields(t):
+    """a value in which EVERY string field (map keys and values included) holds the text t"""
+    loc = {"start": 0, "end": 0, "c": False, "j": False, "p5": False, "p3": False, "subs": None}
+    f = {k: t for k in FEAT_S}
+    f.update({"Attributes": {t: t, "k": t}, "loc": loc, "parent": t})
+    m = {k: t for k in META_S}
+    m.update({"Locus": {k: t for k in LOCUS_F}, "References": [{k: t for k in REF_F}], "Other": {t: t, "K": t}})
+    x = {k: t for k in SEQ_S}
+    x.update({"Meta": m, "Features": [f, dict(f)]})
+    return x
+
 def collection_grid():
     """every combination of nil / empty / non-empty at the five kinds of collection"""
     states = ["nil", "empty", "some"]
@@ -293,6 +313,10 @@ GB_TEXT = ["pUC cloning vector.", ".", "synthetic DNA construct", "Escherichia c
            "file because it does not fit into the fifty-eight columns that a qualifier line offers", "1", "other DNA"]
 
 def gb_text(r, nonascii):
+    if r.random() < 0.15:
+        t = r.choice(NUMERIC)
+        if all(33 <= ord(c) <= 126 for c in t):
+            return t
     if nonascii and r.random() < 0.3:
         return r.choice(["gène product", "中文 note", "β-galactosidase \U0001f9ec"])
     return r.choice(GB_TEXT)
@@ -381,14 +405,15 @@ def gff_file(r, nonascii=False, wild=False, n=None, nfeat=None):
         n = r.choice([0, 1, 69, 70, 71, 140, 150, 700])
     seq = randword(r, "ACGT", n)
     name = r.choice(["U00096.3", "chr1", "ctg123", "x"])
-    lines = ["##gff-version " + r.choice(["3", "3.1.26", "3 "]), "##sequence-region %s %d %d" % (name, r.choice([1, 1, 5]), n)]
+    lines = ["##gff-version " + r.choice(["3", "3.1.26", "3 ", "3.0", "03", "3e0"]), "##sequence-region %s %d %d" % (name, r.choice([1, 1, 5]), n)]
     for _ in range(r.choice([0, 1, 2, 5, 12]) if nfeat is None else nfeat):
         a = r.randint(1, max(n, 1)); b = r.randint(1, max(n, 1))
         if wild and r.random() < 0.2:
             lines.append(r.choice(["# a comment", "", "##species https://example.org/taxon?id=511145", "#!processor x"]))
         attrs = []
         for k in r.sample(["ID", "Name", "gene", "product", "note", "Parent", "db_xref"], r.randint(1, 4)):
-            v = r.choice(["thrL", "b0001", "GO:0009088 - threonine", "leader%3B Amino acid", "1", "a,b,c", ""])
+            v = r.choice(["thrL", "b0001", "GO:0009088 - threonine", "leader%3B Amino acid", "1", "a,b,c", ""]
+                         + [t for t in NUMERIC if all(33 <= ord(c) <= 126 for c in t)])
             if nonascii and r.random() < 0.3:
                 v = r.choice(["gène", "中", "\U0001f9ec x"])
             if wild and r.random() < 0.3:
@@ -398,7 +423,7 @@ def gff_file(r, nonascii=False, wild=False, n=None, nfeat=None):
             attrs.append("flag")
         lines.append("\t".join([r.choice([name, "other"]), r.choice(["feature", "GenBank", "."]),
                                 r.choice(["gene", "CDS", "exon", "region"]), str(min(a, b)), str(max(a, b)),
-                                r.choice([".", "0.5", "1e-10"]), r.choice(["+", "-", ".", "?"]), r.choice([".", "0", "1", "2"]),
+                                r.choice([".", "0.5", "1e-10"] + [t for t in NUMERIC if all(33 <= ord(c) <= 126 for c in t)]), r.choice(["+", "-", ".", "?"]), r.choice([".", "0", "1", "2", "+1", "01"]),
                                 ";".join(attrs)]))
     if not (wild and r.random() < 0.2):
         lines.append("###")
@@ -436,6 +461,10 @@ def cases(seed, tier):
                         "Features": [{"Attributes": {"\uffff": "1", "\U00010000": "2", "\ue000": "3"},
                                       "loc": {"start": 0, "end": 0, "c": False, "j": False, "p5": False, "p3": False, "subs": None},
                                       "parent": ""}]})]
+    # every string field at once through every special and every numeric-looking text: a codec attached to any
+    # single field (number canonicalisation, trimming, case folding, escaping) changes the value
+    for t in TRICKY + NONASCII + NUMERIC:
+        yield ["rt", canon(all_fields(t))]
     # one string field at a time through every special text (escaping / UTF-8 layer)
     for s in TRICKY + NONASCII + (["".join(chr(c) for c in range(1, 128))] if True else []):
         yield ["rt", canon({"Description": s, "Sequence": "ACGT", "Meta": {"Definition": s, "Other": {s: s}},
@@ -493,7 +522,9 @@ RULE = ("rt: the zero value; every combination of nil / empty / non-empty at the
         "complement/join/partial flags and nil or empty leaves, evaluable and out-of-range coordinates incl. int64 extremes, "
         "linked / nil / foreign parent pointers, nil-empty-populated maps and reference lists, strings drawn from plain words, "
         "JSON-special text (quotes, backslash, <>&, control characters incl. NUL, U+2028/9, U+FFFD) and non-ASCII of 2, 3 and 4 "
-        "UTF-8 bytes; a quarter as many printable-ASCII values on which the C03/C14 writer models are compared with the real "
+        "UTF-8 bytes, and numeric-looking text in forms a number-canonicalising codec would alter (1e-5, 12.30, 100.0, +1, 007, "
+        ".5, 5., -0, 1e400, NaN, Inf, ...); every string field at once through each special / non-ASCII / numeric text; "
+        "a quarter as many printable-ASCII values on which the C03/C14 writer models are compared with the real "
         "writers); map keys in UTF-8 vs UTF-16 order; one value with a 70 000-letter sequence (thorough: 100 000 and 131 073 "
         "letters, 1500 features, 300 references, 500 map entries, every BMP scalar value). conv: GenBank and GFF files from a "
         "small independent writer: plain well-formed files (`strict`: must be converted; sizes to 600 bp, up to 9 / 12 features; "
